@@ -7,6 +7,12 @@ import (
 )
 
 func init() {
+	checks["debug20"] = func(tier string) int {
+		rep := c20Run(c20Job{Part: "high", Arg: []int{100, 432}})
+		b, _ := json.MarshalIndent(rep, "", " ")
+		fmt.Println(string(b))
+		return 0
+	}
 	checks["debug05"] = func(tier string) int {
 		var h []string
 		json.Unmarshal([]byte(os.Getenv("HIST")), &h)
